@@ -31,9 +31,13 @@ static void run_history(long idx)
         if (P.nbWorkers && !vr_chance(&r, 1, 4)) { for (int i = 0; i < P.n; i++) if (P.p[i] == ZSTD_c_nbWorkers) P.v[i] = 0; P.nbWorkers = 0; }
         int const fam = (int)vr_u(&r, DF_NB); size_t n = pick_size(&r, g_maxSize); if (P.windowLog && vr_chance(&r, 1, 2)) { size_t const w = (size_t)1 << P.windowLog; size_t const want = w * (2 + vr_u(&r, 6)); n = want < g_maxSize ? want : g_maxSize; }
         if (P.nbWorkers && n < 600000) n = V_MIN(g_maxSize, (size_t)700000);
-        gen_data(&r, x, n, vr_chance(&r, 1, 3) ? DF_LONGREP : fam);
+        int const litRing = !sticky && vr_chance(&r, 1, 8);      /* "literal-heavy ring" frame: window 128-256 KiB, several windows of match-free skewed bytes (blocks with > 64 KiB of Huffman literals), cut by
+                                                                 * flushes at odd places: the decoder's ring buffer wraps with large literal sections in flight */
+        if (litRing) { vp_level_only(&P); P.windowLog = (int)vr_range(&r, 17, 18); vp_add(&P, ZSTD_c_windowLog, P.windowLog); vp_redesc(&P); n = V_MIN(g_maxSize, ((size_t)1 << P.windowLog) * (3 + vr_u(&r, 4)) + vr_u(&r, 70000)); }
+        gen_data(&r, x, n, litRing ? (vr_chance(&r, 1, 2) ? DF_SKEWED : DF_SMALLALPHA) : vr_chance(&r, 1, 3) ? DF_LONGREP : fam);
         int const dictMode = vr_chance(&r, 1, 4) ? 1 + (int)vr_u(&r, 2) : 0; size_t const dl = dictMode ? 1 + vr_u(&r, 60000) : 0; if (dl) { gen_data(&r, dict, dl, fam); if (n > 64) memcpy(dict + dl - V_MIN(dl, n / 4), x, V_MIN(dl, n / 4)); if (dl >= 4 && dict[0] == 0x37 && dict[1] == 0xA4 && dict[2] == 0x30 && dict[3] == 0xEC) dict[0] ^= 1; }
-        hscript S; h_gen_script(&r, n, &S, 0); int const oneShot = (int)vr_u(&r, 3) == 0;
+        hscript S; h_gen_script(&r, n, &S, 0); int const oneShot = litRing ? 0 : (int)vr_u(&r, 3) == 0;
+        if (litRing) { size_t pos = 0; S.nseg = 0; while (pos < n && S.nseg < 200) { size_t l = 30000 + vr_u(&r, 200000); if (l > n - pos) l = n - pos; pos += l; S.seg[S.nseg].len = l; S.seg[S.nseg].dir = pos == n ? ZSTD_e_end : ZSTD_e_flush; S.nseg++; } S.nOut = 1; S.outPat[0] = (size_t)1 << 22; S.api = 0; snprintf(S.desc, sizeof S.desc, "literal-ring nseg=%d flush-every-30..230K", S.nseg); v_stat("literal_heavy_ring_frames", 1); }
         char desc[600]; snprintf(desc, sizeof desc, "history %ld frame %d/%d (cumulative %zu MiB) n=%zu fam=%s params=[%s] %s dict=%d/%zu sticky=%d", idx, f, nframes, cumulative >> 20, n, v_df_name[fam], P.desc, oneShot ? "compress2" : S.desc, dictMode, dl, sticky);
         size_t const ca = compress_with(c, &P, &S, oneShot, dict, dl, dictMode, x, n, a, cap);
         if (ZSTD_isError(ca)) { ZSTD_ErrorCode const ec = ZSTD_getErrorCode(ca); if (ec == ZSTD_error_memory_allocation || ec == ZSTD_error_parameter_outOfBound || ec == ZSTD_error_parameter_unsupported || ec == ZSTD_error_parameter_combination_unsupported) { v_stat("frames_skipped", 1); continue; } v_viol("wear:compression-fails-on-a-used-context", "%s: %s", desc, ZSTD_getErrorName(ca)); continue; }
